@@ -9,10 +9,10 @@ pub fn prop() -> Prop {
     Prop {
         id: "C17",
         level: "model_checking",
-        rule: "streams of <=3 (thorough <=4) values over a 7-value core (incl. multi-line values and a multi-byte string) x 6 separator kinds (space, LF, CRLF, mixed run, touching, LF+indent), clean and with whitespace-delimited noise in one gap; deliveries: whole, 1-byte, greedy reads cut at EVERY set of <=2 offsets, Interrupted before every offset (singly and all at once), one file, FIFO with 3/7-byte writes; file partitions: EVERY composition of the value sequence into 1..4 files and EVERY cut inside the text (a value cut by a file boundary); --only-objects-and-arrays on/off; plus 7 tokens (number, multi-byte string, literal, escapes, containers) placed so that they straddle byte 8192 and 16384 of the input at every split position, read byte by byte, from a file and in 1 KiB/4 KiB/8 KiB chunks; 300 and 1100 values one per line (LF, CRLF) and all on one line (indices, lines and columns beyond 255 / 65535) and spread over 10 files, one of them empty; non-trivial = >=2 values or a cut inside a value; distinct by construction",
+        rule: "streams of <=3 (thorough <=4) values over a 7-value core (incl. multi-line values and a multi-byte string) x 6 separator kinds (space, LF, CRLF, mixed run, touching, LF+indent), clean and with whitespace-delimited noise in one gap; deliveries: whole, 1-byte, greedy reads cut at EVERY set of <=2 offsets, Interrupted before every offset (singly and all at once), one file, FIFO with 3/7-byte writes; file partitions (file names not in sorted order; the same file twice): EVERY composition of the value sequence into 1..4 files and EVERY cut inside the text (a value cut by a file boundary); --only-objects-and-arrays on/off; plus 7 tokens (number, multi-byte string, literal, escapes, containers) placed so that they straddle byte 8192 and 16384 of the input at every split position, read byte by byte, from a file and in 1 KiB/4 KiB/8 KiB chunks; 300 and 1100 values one per line (LF, CRLF) and all on one line (indices, lines and columns beyond 255 / 65535) and spread over 10 files, one of them empty; non-trivial = >=2 values or a cut inside a value; distinct by construction",
         explanation: "(a) every delivery must give the byte-identical observation; (b) out(f1..fn) = out(f1)...out(fn) with all per-file selectors; (c) the seven &-selectors are compared with a location model on the input text: &index ordinal of processed values, &index-in-file per file, &file-name the path, [start,end) as byte offsets must contain the value's span from the strict reference reader, consecutive ranges contiguous on clean streams, lines counted by LF only",
         assumptions: COMMON_ASSUMPTIONS.to_vec(),
-        guards: vec!["index-line-column-beyond-255", "token-straddles-a-buffer-boundary", "touching-values", "multi-line-value", "cut-inside-value", "greedy-chunking", "file-boundary-inside-value", "ooa-skips-scalar", "crlf", "fifo"],
+        guards: vec!["same-file-twice", "index-line-column-beyond-255", "token-straddles-a-buffer-boundary", "touching-values", "multi-line-value", "cut-inside-value", "greedy-chunking", "file-boundary-inside-value", "ooa-skips-scalar", "crlf", "fifo"],
         budget_s: (100, 1800),
         single_worker: false,
         run,
@@ -22,7 +22,7 @@ pub fn prop() -> Prop {
 
 const CORE: [&str; 7] = ["1203", "\"a\u{e9}\"", "[1,\n2]", "{\"k\":\n\n \"v\"}", "true", "[]", "-2.5e1"];
 const SEPS: [(&str, &str); 6] = [("space", " "), ("lf", "\n"), ("crlf", "\r\n"), ("run", "  \n\t"), ("touch", ""), ("lf-indent", "\n  ")];
-const NOISE: [&str; 3] = ["}", "x:", ",\n]"];
+const NOISE: [&str; 4] = ["}", "x:", ",\n]", "\u{feff}"];
 
 const SEL_LOC: [&str; 4] = [
     "--select=&started-at-line-number=sl",
@@ -189,7 +189,7 @@ fn run(ctx: &mut Ctx) {
             let mut streams = vec![build(idx, sk, None, "", ""), build(idx, sk, None, " \n", "\n")];
             if !idx.is_empty() {
                 for g in 0..=idx.len() {
-                    streams.push(build(idx, sk, Some((g, NOISE[(g + sk) % 3])), "", "\n"));
+                    streams.push(build(idx, sk, Some((g, NOISE[(g + sk) % 4])), "", "\n"));
                 }
             }
             for st in &streams {
@@ -478,7 +478,15 @@ fn one_stream(ctx: &mut Ctx, st: &Stream, ooa: bool) {
                 continue;
             }
             let ap = args_ctx(ooa, false, true, policy);
-            let files: Vec<(String, Vec<u8>)> = parts.iter().enumerate().map(|(i, b)| (format!("p{i}.json"), b.clone())).collect();
+            // names that are NOT in sorted order as given (files are processed in command-line order)
+            let mut files: Vec<(String, Vec<u8>)> = parts.iter().enumerate().map(|(i, b)| (format!("{}{i}.json", ["m", "c", "x", "a", "k"][i % 5]), b.clone())).collect();
+            let mut dup = false;
+            if cuts.is_empty() && policy == "stdout" {
+                // the same file given twice is read twice (checked by out(f,f) = out(f).out(f) only)
+                files.push(files[0].clone());
+                ctx.guard("same-file-twice");
+                dup = true;
+            }
             let all = Case { args: ap.clone(), input: Input::Files(files.clone()), rplan: ReadPlan::default(), wplan: WritePlan::default() };
             let oa = ctx.run(&all);
             ctx.case_done();
@@ -507,7 +515,7 @@ fn one_stream(ctx: &mut Ctx, st: &Stream, ooa: bool) {
             }
             ctx.outcome("files-ok");
             // global &index across files + per-file model (clean partitions at value boundaries only)
-            if policy == "ignore" && !inside && st.clean {
+            if policy == "ignore" && !inside && st.clean && !dup {
                 let ai = args_ctx(ooa, true, true, "ignore");
                 let all_i = Case { args: ai, input: Input::Files(files.clone()), rplan: ReadPlan::default(), wplan: WritePlan::default() };
                 let oi = ctx.run(&all_i);
